@@ -10,6 +10,10 @@ growth); pool nodes that are mentioned only in edges / incompatibilities are sym
 other and are fixed by taking the lexicographic minimum over their permutations; for two start
 nodes additionally the minimum over swapping the starts.  Listing order of options, order of
 choices and which node is a start node are semantic and are never merged.
+
+Alphabet decision: a choice never lists its own originating node as an option (a self-loop after
+resolution; outside anything the documentation describes).  Cycles through derivation edges and
+through other choices are part of the grammar.
 """
 import itertools
 import json
@@ -35,7 +39,7 @@ def _gen_choices(starts, P, K, M):
         cands = list(range(1, min(n_intro+1, P)+1))
         for c in cands:
             name = f'n{c}'
-            if name in prefix:
+            if name in prefix or name == origin:   # an option is never the originating node itself
                 continue
             yield from options(max(n_intro, c), m-1, origin, prefix+[name])
 
@@ -166,9 +170,9 @@ def selftest():
     # P=0: 1 spec (nothing).  P=1: (e,i) in {(1,0),(0,1),(1,1)} = 3  => 4 specs
     n = sum(1 for _ in sel_specs(dict(P=1, K=0, M=1, E=1, I=1, S=1)))
     assert n == 4, n
-    # K=1, P=1, M=1, E=0, I=0: origin s0 (option n1) or origin n1 (option n1) = 2; plus K=0/P=0 = 1
+    # K=1, P=1, M=1, E=0, I=0: origin s0 (option n1) = 1 (an origin is never its own option); plus K=0/P=0 = 1
     n = sum(1 for _ in sel_specs(dict(P=1, K=1, M=1, E=0, I=0, S=1)))
-    assert n == 3, n
+    assert n == 2, n
     # canonical representatives are pairwise non-isomorphic (brute force on a small scope)
     specs = list(sel_specs(dict(P=3, K=1, M=2, E=1, I=1, S=1)))
     keys = set()
@@ -189,6 +193,8 @@ def selftest():
     for o in alln:
         for m in (1, 2):
             for opts in itertools.permutations(pool, m):
+                if o in opts:
+                    continue
                 for ne in (0, 1):
                     for edges in itertools.combinations(all_edges, ne):
                         for ni in (0, 1):
